@@ -264,3 +264,6 @@ TEXT["C14"]["level"] += " DependencyGraph.parse_key, by which the graph is linke
 TEXT["C14"]["note"] += " The worklist DependencyGraph._rules_until_first_memento_fn that links the graph (df() / graph()) is not under contract."
 TEXT["C05"]["level"] += (" DataSourceMetadataSource.list_mementos is proved to make exactly one listing -- of the function's own directory, not recursive, no name prefix, only '.memento.json' files, "
                          "with the caller's limit -- and to return the memento read from every listed key, in the order listed, nothing dropped or added (reading one memento is an assumed function of source and key).")
+TEXT["C05"]["level"] += (" DataSourceMetadataSource.list_functions is proved to make one listing of the metadata root 'm' (not recursive, no prefix) and to return, in the order listed, the reference "
+                         "for exactly the qualified name each key 'm/<name>' carries (from_qualified_name is an assumed function of the name here; C12 proves it).")
+TEXT["C12"]["note"] += " (Since then DataSourceMetadataSource.get_mementos is under contract in this check, and list_functions / list_mementos of the metadata source in C05's.)"
